@@ -220,6 +220,24 @@ CLAIMS = {
         technique="Lean 4 proof (field identity via field_simp/ring) + differential correspondence on "
                   "rational arithmetic",
         ref="DESIGN.md §6 C16"),
+    "C17": dict(
+        text="Lean 4 theorems: the precomputed mesh file is [uint32 vertex count][float32 coordinates][uint32 "
+             "triangles] and read(save m) = m for every mesh whose indices reference existing vertices; for "
+             "EVERY byte string the reader returns a mesh with all indices in range or the mesh-data error, "
+             "nothing else; under an affine transform the signed volume of a triangle against any reference "
+             "direction is multiplied by det R (Mathlib det_mul), swapping two vertices negates it, hence "
+             "reversing the winding exactly when det R < 0 preserves every triangle's orientation for all "
+             "non-singular R over any ordered field. Tie/oracle: real writers/readers on meshes with "
+             "C/Fortran/transposed float32/float64 vertices, all truncations and targeted corruptions, "
+             "integer affine maps with both determinant signs, GIfTI -> precomputed conversion (mm -> nm) read "
+             "back through the accessor, VTK export parsed by a recogniser of Neuroglancer's subset grammar, "
+             "fragment-link files for labels up to 2^64-1.",
+        note="Trusted: Lean kernel; standard axioms (Mathlib determinant/order lemmas); hand-written byte model "
+             "(tie = sampling + exhaustive truncation); VTK grammar and links are harness-level checks; "
+             "float formatting '%.9g' observed.",
+        technique="Lean 4 proof (byte layout round trip, totality, determinant identity) + differential "
+                  "correspondence and grammar recogniser",
+        ref="DESIGN.md §6 C17"),
 }
 
 ALL = ["C%02d" % i for i in range(1, 21)]
